@@ -40,6 +40,9 @@ class Problem(Exception):
     pass
 
 
+COQTY = {'text': 'text', 'bool': 'bool', 'oZ': 'option Z', 'otext': 'option text'}
+
+
 def lit(s):
     if isinstance(s, bytes):
         cs = list(s)
@@ -72,6 +75,9 @@ class Fn:
         self.tr, self.name, self.node = tr, name, node
         self.params, self.ret, self.raises, self.uses_state = params, ret, raises, uses_state
         self.n = 0
+        self.mode = 'plain'      # 'init': a constructor -- stores on self are collected, the end builds the record
+        self.end = None          # env -> term for control reaching the end of the function (implicit `return None`)
+        self.kwarg = None        # the value a `**kw` parameter stands for (policy wrappers), or None: not allowed
 
     def fresh(self, base):
         self.n += 1
@@ -221,6 +227,8 @@ class Fn:
                 return V('(slice %s %s %s)' % (lo.term, hi.term, v.term), 'text')   # s[a:b]
             raise Problem('%s: slice %s' % (self.name, U(e)))
         v = self.E(e.value, env)
+        if v.ty == 'identity' and isinstance(sl, ast.Constant) and sl.value in v.extra:
+            return v.extra[sl.value]                                              # identity['userid'] ..
         if v.ty == 'erased' and v.term == 'environ' and isinstance(sl, ast.Constant) and sl.value == 'REMOTE_ADDR':
             return V('(remote_addr r)', 'ip')                                      # environ['REMOTE_ADDR']
         if v.ty == 'split1' and isinstance(sl, ast.Constant) and sl.value == 1:
@@ -277,6 +285,10 @@ class Fn:
                 return V('(ip_lit %s)' % v.term, 'ip')
             if v.ty == 'text' and ty == 'uval':
                 return V('(VStr %s)' % v.term, 'uval')
+            if v.ty == 'uval' and ty == 'uarg':
+                return V('(UKnown %s)' % v.term, 'uarg')       # a value of one of the three table types
+            if v.ty == 'uarg' and ty == 'uval':
+                return V('(uarg_val %s)' % v.term, 'uval')
             return None
         for ty in (a.ty, b.ty, 'o' + a.ty, 'o' + b.ty):
             x, y = (a if a.ty == ty else up(a, ty)), (b if b.ty == ty else up(b, ty))
@@ -287,6 +299,10 @@ class Fn:
     def coerce(self, v, ty):
         if v.ty == ty:
             return v
+        if (v.ty, ty) == ('uval', 'uarg'):
+            return V('(UKnown %s)' % v.term, 'uarg')
+        if (v.ty, ty) == ('uarg', 'uval'):
+            return V('(uarg_val %s)' % v.term, 'uval')
         a, _ = self.unify(v, V('_', ty))
         if a.ty != ty:
             raise Problem('%s: %s where %s is needed' % (self.name, v.ty, ty))
@@ -371,7 +387,7 @@ class Fn:
                 del env[kk]
             for kk, vv in v.extra.items():
                 env['%s.%s' % (name, kk)] = vv
-        if v.term is None or v.ty in ('erased', 'none', 'dict', 'obj', 'tuple', 'pylist', 'hasher', 'split1', 'optalias'):
+        if v.term is None or v.ty in ('erased', 'none', 'dict', 'obj', 'tuple', 'pylist', 'hasher', 'split1', 'optalias', 'identity', 'kwpair'):
             env[name] = v
             return body_of(env)
         if v.term.isidentifier() or v.term in ('true', 'false'):
@@ -413,6 +429,19 @@ class Fn:
             env2 = dict(env)
             env2[target.id] = V(None, 'optalias', nt)          # a bool that stands for `x is not None`
             return self.block(rest, env2, k)
+        if isinstance(value, ast.Call) and U(value.func) == 'self.cookie.identify' and isinstance(target, ast.Name) \
+                and len(value.args) == 1 and not value.keywords and U(value.args[0]) == 'request' and '$st' in env:
+            # result = self.cookie.identify(request): None | the identity dict | it raised
+            st2, ts, u, tk, ud = [self.fresh(x) for x in ('st', 'ts', 'u', 'tk', 'ud')]
+            envS, envN, envR = dict(env), dict(env), dict(env)
+            for e2 in (envS, envN, envR):
+                e2['$st'] = V(st2, 'st')
+            envS[target.id] = V(None, 'identity', {'timestamp': V(ts, 'Z'), 'userid': V(u, 'uval'),
+                                                   'tokens': V(tk, 'texts'), 'userdata': V(ud, 'text')})
+            envN[target.id] = V('None', 'none')
+            return ('(match (gen_identify c %s %s) with\n | (%s, ISome %s %s %s %s) => %s\n | (%s, INone) => %s\n | (%s, IRaise) => %s end)'
+                    % (env['$r'].term, env['$st'].term, st2, ts, u, tk, ud, self.block(rest, envS, k),
+                       st2, self.block(rest, envN, k), st2, self.raise_term('Exception', envR)))
         part = self.tr.partial(self, value, env)           # partial primitive? -> (scrutinee, pattern, bindings, exc)
         if part is not None:
             scrut, pat, binds, exc = part(target)
@@ -546,7 +575,8 @@ class Fn:
         raise Problem('%s: a dict is modified under a condition in a way the table does not cover' % self.name)
 
     def joinable(self, v):
-        return v.term is not None and v.ty not in ('erased', 'dict', 'obj', 'tuple', 'pylist', 'hasher', 'split1', 'none', 'optalias')
+        return v.term is not None and v.ty not in ('erased', 'dict', 'obj', 'tuple', 'pylist', 'hasher', 'split1', 'none', 'optalias',
+                                                   'identity', 'kwpair')
 
     def cond_core(self, test, A, B, env, k):
         """test is atomic here"""
@@ -654,8 +684,11 @@ class Fn:
         env = {}
         args = self.node.args
         pos = [a.arg for a in args.args]
-        if args.vararg or args.kwarg or args.kwonlyargs or args.posonlyargs:
+        if args.vararg or args.kwonlyargs or args.posonlyargs or (args.kwarg and self.kwarg is None) \
+                or (self.kwarg is not None and not args.kwarg) or any(d is not None for d in args.kw_defaults):
             raise Problem('%s: signature' % self.name)
+        if args.kwarg:
+            env[args.kwarg.arg] = self.kwarg
         if len(pos) != len(self.params):
             raise Problem('%s: %d parameters, table expects %d' % (self.name, len(pos), len(self.params)))
         for nm, (term, ty) in zip(pos, self.params):
@@ -668,8 +701,56 @@ class Fn:
             raise Problem('%s: decorated' % self.name)
 
         def end(e2):
+            if self.end is not None:
+                return self.end(e2)
             raise Problem('%s: control reaches the end of the function' % self.name)
         return self.block(self.node.body, env, end)
+
+    def translate_init(self, types):
+        """a constructor: -> (header, body).  Parameters are typed BY NAME through `types` (erased ones are dropped from
+        the header); the generated function takes them in the SOURCE's order; `self.x = e` stores are collected and
+        self.end builds the result from them."""
+        args = self.node.args
+        names = [a.arg for a in args.args]
+        if not names or names[0] != 'self' or args.vararg or args.kwarg or args.kwonlyargs or args.posonlyargs \
+                or self.node.decorator_list:
+            raise Problem('%s: signature' % self.name)
+        env = {'self': V('self', 'erased'), '$r': V('r', 'req'), '$facts': set()}
+        header = []
+        for nm in names[1:]:
+            ty = types.get(nm)
+            if ty is None:
+                raise Problem('%s: parameter %s is outside the table' % (self.name, nm))
+            if ty == 'erased':
+                env[nm] = V(nm, 'erased')
+                continue
+            env[nm] = V('a_' + nm, ty)
+            header.append('(a_%s : %s)' % (nm, COQTY[ty]))
+        self.mode = 'init'
+
+        def end(e2):
+            return self.end(e2)
+        return ' '.join(header) + ' : cfg * ck', self.block(self.node.body, env, end)
+
+    def defaults_call(self, types, gname):
+        """(gname a_secret <the literal defaults of the other parameters, in the source's order>)"""
+        args = self.node.args
+        names = [a.arg for a in args.args][1:]
+        dfl = dict(zip(reversed(names), reversed(args.defaults)))
+        out = []
+        for nm in names:
+            ty = types.get(nm)
+            if ty == 'erased':
+                continue
+            if nm not in dfl:
+                if nm != 'secret':
+                    raise Problem('%s: parameter %s has no default' % (self.name, nm))
+                out.append('a_secret')
+                continue
+            if not isinstance(dfl[nm], ast.Constant):
+                raise Problem('%s: computed default %s=%s' % (self.name, nm, U(dfl[nm])))
+            out.append(self.coerce(self.E(dfl[nm], {}), ty).term)
+        return '(%s %s)' % (gname, ' '.join(out))
 
 
 # ====================================================================== the primitive table
@@ -712,6 +793,10 @@ class Tr:
                     return V('(now %s)' % v.extra, 'Z')                    # int(time()): floor of the clock
             if nm == 'str' and len(args) == 1 and A(0).ty == 'Z':
                 return V('(dec_of_Z %s)' % A(0).term, 'text')             # str(<int>)
+            if nm == 'str' and len(args) == 1 and A(0).ty == 'uarg':
+                return V('(VStr (str_other %s))' % A(0).term, 'uval')     # str(<object of a type outside the table>)
+            if nm == 'int' and len(args) == 1 and not kw and A(0).ty == 'Z':
+                return A(0)
             if nm == 'len' and len(args) == 1 and A(0).ty == 'text':
                 return V('(length %s)' % A(0).term, 'nat')
             if nm in ('bytes_',) and len(args) in (1, 2):
@@ -751,8 +836,16 @@ class Tr:
                 return A(0)
             if nm == 'isinstance' and len(args) == 2 and U(args[1]) == 'str' and A(0).ty == 'text':
                 return V('true', 'bool', ('static', True))
-            if nm == 'type' and len(args) == 1 and A(0).ty == 'uval':
-                return V(A(0).term, 'typeof')
+            if nm == 'type' and len(args) == 1 and A(0).ty in ('uval', 'uarg'):
+                return V(A(0).term, 'typeof', A(0).ty)
+            if nm == 'AuthTktCookieHelper' and fn.mode == 'init':
+                return self.helper_call(fn, e, env)
+            if nm == 'CookieProfile' and fn.mode == 'init' and not args:
+                want = {'cookie_name': 'text', 'secure': 'bool', 'max_age': 'oZ', 'httponly': 'bool', 'path': 'text',
+                        'samesite': 'otext'}
+                if set(kw) != set(want) | {'serializer'} or U(kw['serializer']) != 'SimpleSerializer()':
+                    raise Problem('%s: CookieProfile keywords %s' % (fn.name, sorted(kw)))
+                return V(None, 'obj', {k2: fn.coerce(fn.E(kw[k2], env), ty) for k2, ty in want.items()})
         if isinstance(f, ast.Attribute):
             recv = f.value
             meth = f.attr
@@ -782,8 +875,22 @@ class Tr:
                 return V('(cookie r)', 'otext')
             if src == 'self.userid_type_decoders.get' and len(args) == 1 and A(0).ty == 'text':
                 return V('(lookup_text %s decoders)' % A(0).term, 'odec')
+            if src == 'self.userid_type_encoders.get' and len(args) == 1 and isinstance(args[0], ast.Name) \
+                    and args[0].id == 'str' and 'str' not in env:
+                return V('enc_str', 'encpair')                              # .get(str): the entry of the str type
             if src == 'self.userid_type_encoders.get' and len(args) == 1 and A(0).ty == 'typeof':
+                if A(0).extra == 'uarg':
+                    # .get(type(x)) for an arbitrary object: None unless its type is exactly int / str / bytes
+                    return V('(enc_of_arg enc_int enc_str enc_bytes %s)' % A(0).term, 'oencpair')
                 return V('(enc_of enc_int enc_str enc_bytes %s)' % A(0).term, 'encpair', ('static', True))
+            if src == 'self.cookie.remember' and len(args) == 2 and U(args[0]) == 'request' and '$st' in env \
+                    and len(e.keywords) == 1 and e.keywords[0].arg is None and isinstance(e.keywords[0].value, ast.Name) \
+                    and env.get(e.keywords[0].value.id) is not None and env[e.keywords[0].value.id].ty == 'kwpair':
+                ma, tk = env[e.keywords[0].value.id].extra                  # **kw forwarded unchanged
+                u = fn.coerce(A(1), 'uarg')
+                return V('(gen_remember c %s %s %s %s %s)' % (env['$r'].term, env['$st'].term, u.term, ma.term, tk.term), 'hdrres')
+            if src == 'self.cookie.forget' and len(args) == 1 and U(args[0]) == 'request' and not e.keywords and '$st' in env:
+                return V('(gen_forget c %s %s)' % (env['$r'].term, env['$st'].term), 'hdrres')
             if src == 'VALID_TOKEN.match' and len(args) == 1 and A(0).ty == 'text':
                 return V('(regex_match tok_first tok_rest tok_dollar %s)' % A(0).term, 'bool')
             if src == 'self.cookie_profile' and len(args) == 1:
@@ -848,6 +955,37 @@ class Tr:
             return V(None, 'obj', o)
         raise Problem('%s: call outside the table: %s' % (fn.name, U(e)))
 
+    def helper_call(self, fn, e, env):
+        """AuthTktCookieHelper(<positional>, <keywords>) inside a constructor: the arguments arranged in the order of the
+        helper's own signature (read from the source), omitted ones filled with the helper's literal defaults"""
+        node = self.m.find('AuthTktCookieHelper.__init__') if self.m is not None else None
+        if node is None:
+            raise Problem('%s: AuthTktCookieHelper.__init__ missing' % fn.name)
+        names = [a.arg for a in node.args.args][1:]
+        dfl = dict(zip(reversed(names), reversed(node.args.defaults)))
+        given = {}
+        if len(e.args) > len(names):
+            raise Problem('%s: too many positional arguments' % fn.name)
+        for nm, a in zip(names, e.args):
+            given[nm] = a
+        for kk in e.keywords:
+            if kk.arg is None or kk.arg not in names or kk.arg in given:
+                raise Problem('%s: keyword %s of the helper call' % (fn.name, kk.arg))
+            given[kk.arg] = kk.value
+        out = []
+        for nm in names:
+            ty = HELPER_TYPES.get(nm)
+            if ty is None:
+                raise Problem('%s: helper parameter %s is outside the table' % (fn.name, nm))
+            if nm in given:
+                v = fn.E(given[nm], env)
+            elif nm in dfl and isinstance(dfl[nm], ast.Constant):
+                v = fn.E(dfl[nm], {})
+            else:
+                raise Problem('%s: helper parameter %s is not supplied' % (fn.name, nm))
+            out.append(fn.coerce(v, ty).term)
+        return V('(gen_helper_init %s)' % ' '.join(out), 'helper')
+
     # ------------------------------------------------------------------ partial primitives (may raise)
     def partial(self, fn, value, env):
         """-> None or a function target -> (scrutinee, success pattern, bindings, exception name)"""
@@ -907,13 +1045,15 @@ class Tr:
             return mk
         if isinstance(f, ast.Name) and f.id in env and env[f.id].ty == 'enckind' and len(args) == 1:
             v = fn.E(args[0], env)
+            if v.ty == 'uarg':
+                v = fn.coerce(v, 'uval')
             if v.ty == 'uval':
                 def mk(target, v=v, kd=env[f.id]):
                     n = fn.fresh(target.id)
                     return ('(apply_enc %s %s)' % (kd.term, v.term), 'Some %s' % n, {target.id: V(n, 'text')}, 'Exception')
                 return mk
         if src == 'self.remember' and len(args) == 2 and set(kw) == {'max_age', 'tokens'}:
-            u = fn.coerce(fn.E(args[1], env), 'uval')
+            u = fn.coerce(fn.E(args[1], env), 'uarg')
             ma = fn.coerce(fn.E(kw['max_age'], env), 'oZ')
             tk = fn.E(kw['tokens'], env)
             if tk.ty != 'texts':
@@ -947,6 +1087,13 @@ class Tr:
 
     # ------------------------------------------------------------------ stores: request flags, dict entries
     def store(self, fn, target, value, rest, env, k):
+        if fn.mode == 'init' and isinstance(target, ast.Attribute) and U(target.value) == 'self':
+            v = fn.E(value, env)
+            if v.ty not in ('erased', 'obj', 'helper') and not fn.joinable(v):
+                raise Problem('%s: self.%s = %s' % (fn.name, target.attr, v.ty))
+            env2 = dict(env)
+            env2['self.' + target.attr] = v                                  # collected; fn.end builds the record
+            return fn.block(rest, env2, k)
         if isinstance(target, ast.Attribute) and U(target.value) == 'request' and target.attr in (
                 '_authtkt_reissue_revoked', '_authtkt_reissued'):
             if not (isinstance(value, ast.Constant) and value.value is True):
@@ -1034,6 +1181,8 @@ class Tr:
                 return None
             if v.ty == 'none':
                 return isinstance(test.ops[0], ast.Is)
+            if v.ty == 'identity':
+                return isinstance(test.ops[0], ast.IsNot)      # a dict is not None
             return None
         try:
             v = fn.E(test, env)
@@ -1041,6 +1190,10 @@ class Tr:
             return None
         if v.extra and isinstance(v.extra, tuple) and v.extra[0] == 'static':
             return v.extra[1]
+        if v.ty == 'none':
+            return False                   # truthiness of None
+        if v.ty == 'identity':
+            return True                    # the identity dict is never empty
         if isinstance(test, ast.Compare) and len(test.ops) == 1 and isinstance(test.ops[0], (ast.Is, ast.IsNot)):
             return None
         return None
@@ -1077,7 +1230,7 @@ class Tr:
             v, rb = t
             if v.ty == 'none':
                 return None
-            if v.ty in ('oZ', 'otext'):
+            if v.ty in ('oZ', 'otext', 'oencpair'):
                 return (v.term, v.ty[1:], rb, None, isinstance(test.ops[0], ast.Is))
             raise Problem('%s: `is None` on %s' % (fn.name, v.ty))
         t = None
@@ -1096,6 +1249,8 @@ class Tr:
                 return (v.term, 'text', rb, lambda nv: '(nonempty %s)' % nv, False)      # truthiness of Optional[str]
             if v.ty == 'odec':
                 return (v.term, 'deckind', rb, None, False)
+            if v.ty == 'oencpair':
+                return (v.term, 'encpair', rb, None, False)      # a 2-tuple is truthy
         return None
 
 
@@ -1146,7 +1301,77 @@ def _raise_identify(exc, env):
     return '(%s, IRaise)' % env['$st'].term
 
 
+def _ret_puid(fn, v, env, node):
+    st = env['$st'].term
+    if v.ty == 'none':
+        return '(%s, UNone)' % st
+    if v.ty == 'uval':
+        return '(%s, USome %s)' % (st, v.term)
+    raise Problem('%s returns %s' % (fn.name, v.ty))
+
+
+def _raise_puid(exc, env):
+    return '(%s, URaise)' % env['$st'].term
+
+
+def _ret_hdrres(fn, v, env, node):
+    if v.ty != 'hdrres':
+        raise Problem('%s returns %s' % (fn.name, v.ty))
+    return v.term
+
+
+# constructor parameters, typed by name
+HELPER_TYPES = {'secret': 'text', 'cookie_name': 'text', 'secure': 'bool', 'include_ip': 'bool', 'timeout': 'oZ',
+                'reissue_time': 'oZ', 'max_age': 'oZ', 'http_only': 'bool', 'path': 'text', 'wild_domain': 'bool',
+                'hashalg': 'text', 'parent_domain': 'bool', 'domain': 'otext', 'samesite': 'otext'}
+POLICY_TYPES = dict(HELPER_TYPES, callback='erased', debug='erased')
+HELPER_SELF = {'secret': 'text', 'cookie_name': 'text', 'secure': 'bool', 'include_ip': 'bool', 'timeout': 'oZ',
+               'reissue_time': 'oZ', 'max_age': 'oZ', 'wild_domain': 'bool', 'parent_domain': 'bool', 'domain': 'otext',
+               'hashalg': 'text'}
+
+
+def _end_helper(fn):
+    def end(env):
+        stored = set(k[5:] for k in env if k.startswith('self.'))
+        if stored != set(HELPER_SELF) | {'cookie_profile'}:
+            raise Problem('%s: attributes stored on self: %s' % (fn.name, sorted(stored)))
+        g = lambda nm: fn.coerce(env['self.' + nm], HELPER_SELF[nm]).term
+        prof = env['self.cookie_profile']
+        if prof.ty != 'obj':
+            raise Problem('%s: self.cookie_profile = %s' % (fn.name, prof.ty))
+        p = lambda nm: prof.extra[nm].term
+        # cfg: what identify / remember / _get_cookies read from self, and (path, http_only, samesite) from the profile
+        return ('(mkCfg %s %s %s %s %s %s %s %s %s %s %s %s %s %s, mkCk %s None None %s %s %s %s %s)' % (
+            g('secret'), g('cookie_name'), g('secure'), g('include_ip'), g('timeout'), g('reissue_time'), g('max_age'),
+            p('httponly'), p('path'), g('wild_domain'), g('parent_domain'), g('domain'), g('hashalg'), p('samesite'),
+            p('cookie_name'), p('max_age'), p('path'), p('secure'), p('httponly'), p('samesite')))
+    return end
+
+
+def _end_policy(fn):
+    def end(env):
+        stored = set(k[5:] for k in env if k.startswith('self.'))
+        if stored != {'cookie', 'callback', 'debug'} or env['self.cookie'].ty != 'helper' \
+                or env['self.callback'].ty != 'erased' or env['self.debug'].ty != 'erased':
+            raise Problem('%s: attributes stored on self: %s' % (fn.name, sorted(stored)))
+        return env['self.cookie'].term
+    return end
+
+
 SELF_REQ = [('self', 'erased'), ('request', 'erased')]
+POLICY_FUNCS = [
+    ('gen_policy_userid', 'AuthTktAuthenticationPolicy.unauthenticated_userid', '(c : cfg) (r : req) (st : state) : state * ures',
+     SELF_REQ, _ret_puid, _raise_puid, True, 'end-none'),
+    ('gen_policy_remember', 'AuthTktAuthenticationPolicy.remember',
+     '(c : cfg) (r : req) (st : state) (u : uarg) (ma : option Z) (toks : list text) : state * option (list ck)',
+     SELF_REQ + [('u', 'uarg')], _ret_hdrres, None, True, 'kw'),
+    ('gen_policy_forget', 'AuthTktAuthenticationPolicy.forget', '(c : cfg) (r : req) (st : state) : state * option (list ck)',
+     SELF_REQ, _ret_hdrres, None, True, None),
+]
+INIT_FUNCS = [
+    ('gen_helper_init', 'gen_helper_defaults', 'AuthTktCookieHelper.__init__', HELPER_TYPES, _end_helper),
+    ('gen_policy_init', 'gen_policy_defaults', 'AuthTktAuthenticationPolicy.__init__', POLICY_TYPES, _end_policy),
+]
 # name -> (qualified python name, header, [(term, type) per positional parameter], ret, raises, uses request state)
 FUNCS = [
     ('gen_encode_ip_timestamp', 'encode_ip_timestamp', '(ip : ipaddr) (ts : Z) : list N',
@@ -1168,15 +1393,16 @@ FUNCS = [
     ('gen_forget', 'AuthTktCookieHelper.forget', '(c : cfg) (r : req) (st : state) : state * option (list ck)',
      SELF_REQ, _ret_hdr, _raise_hdr, True),
     ('gen_remember', 'AuthTktCookieHelper.remember',
-     '(c : cfg) (r : req) (st : state) (u : uval) (ma : option Z) (toks : list text) : state * option (list ck)',
-     SELF_REQ + [('u', 'uval'), ('ma', 'oZ'), ('toks', 'texts')], _ret_hdr, _raise_hdr, True),
+     '(c : cfg) (r : req) (st : state) (u : uarg) (ma : option Z) (toks : list text) : state * option (list ck)',
+     SELF_REQ + [('u', 'uarg'), ('ma', 'oZ'), ('toks', 'texts')], _ret_hdr, _raise_hdr, True),
     ('gen_identify', 'AuthTktCookieHelper.identify', '(c : cfg) (r : req) (st : state) : state * idres',
      SELF_REQ, _ret_identify, _raise_identify, True),
 ]
 # every source function whose control flow is regenerated on every run (coverage_map.py reads this); the nested
 # reissue callback is matched structurally (Tr.nested_def, fail-closed) as part of translating identify
 TRANSLATED = ['%s:%s' % (AUTH, q) for _, q, _, _, _, _, _ in FUNCS] + [
-    AUTH + ':AuthTktCookieHelper.identify.reissue_authtkt']
+    AUTH + ':AuthTktCookieHelper.identify.reissue_authtkt'] + ['%s:%s' % (AUTH, x[1]) for x in POLICY_FUNCS] + [
+    '%s:%s' % (AUTH, x[2]) for x in INIT_FUNCS]
 
 
 def translate_tree(src_root):
@@ -1219,6 +1445,54 @@ def translate_tree(src_root):
                 problems.append('translator: no fallback text for %s' % gname)
                 body = '_'
         defs.append((gname, header, body))
+    # ---- constructors (header generated from the source's signature) and the policy wrappers
+    def attempt(gname, qual, build):
+        out = None
+        if m is not None:
+            node = m.find(qual)
+            if node is None:
+                problems.append('translator: %s no longer exists' % qual)
+            else:
+                try:
+                    out = build(node)
+                    summary['translated:' + qual] = '%d lines' % (out[-1].count('\n') + 1)
+                except Problem as e:
+                    problems.append('translator: ' + str(e))
+                except Exception as e:
+                    if os.environ.get('C09_TR_DEBUG'):
+                        raise
+                    problems.append('translator: internal error on %s: %r' % (qual, e))
+        if out is None:
+            out = fallback.get(gname)
+            summary['translated:' + qual] = 'FALLBACK'
+            if not isinstance(out, list):
+                problems.append('translator: no fallback text for %s' % gname)
+                out = None
+        return out
+    dyn = {}
+    for gname, dname, qual, types, mk_end in INIT_FUNCS:
+        def build(node, gname=gname, dname=dname, qual=qual, types=types, mk_end=mk_end):
+            fn = Fn(tr, qual, node, [], None, None, False)
+            fn.end = mk_end(fn)
+            header, body = fn.translate_init(types)
+            return [header, body, fn.defaults_call(types, gname)]
+        out = attempt(gname, qual, build)
+        if out is not None:
+            dyn[gname] = out
+            defs.append((gname, out[0], out[1]))
+            defs.append((dname, '(a_secret : text) : cfg * ck', out[2]))
+    for gname, qual, header, params, ret, raises, uses_state, flag in POLICY_FUNCS:
+        def build(node, qual=qual, params=params, ret=ret, raises=raises, uses_state=uses_state, flag=flag):
+            fn = Fn(tr, qual, node, params, ret, raises, uses_state)
+            if flag == 'end-none':
+                fn.end = lambda e2: ret(fn, V('None', 'none'), e2, None)
+            if flag == 'kw':
+                fn.kwarg = V(None, 'kwpair', (V('ma', 'oZ'), V('toks', 'texts')))      # max_age= / tokens= as given
+            return [fn.translate()]
+        out = attempt(gname, qual, build)
+        if out is not None:
+            dyn[gname] = out
+            defs.append((gname, header, out[0]))
     coq = ('\n(* ---- regenerated from src/pyramid/authentication.py by harness/c09/translate.py: control flow translated\n'
            '   mechanically, leaves through the primitive table (see that file) ---- *)\n'
            'Section Gen.\nVariable H : text -> list N -> text.\nVariable dsz : text -> nat.\nVariable uni : N -> N.\n'
@@ -1226,7 +1500,9 @@ def translate_tree(src_root):
     for gname, header, body in defs:
         coq += 'Definition %s %s :=\n %s.\n\n' % (gname, header, body)
     coq += 'End Gen.\n'
-    return coq, problems, summary, {g: b for g, _, b in defs}
+    bodies = {g: b for g, _, b in defs if g not in dyn and not g.endswith('_defaults')}
+    bodies.update(dyn)
+    return coq, problems, summary, bodies
 
 
 if __name__ == '__main__':
